@@ -931,6 +931,8 @@ class HasflagCommand(TestCommand):
         if condition:
             self.arguments["list-of-flags"] = self.arguments.pop("variable-list")
             self.rargs_cnt = 1
+            return True
+        return False
 
 
 class DateCommand(TestCommand):
